@@ -270,7 +270,7 @@ CHECKS['C14'] = dict(
                 'Every returned partial signature is verified under the share key of its instance; both duties collecting >= t valid partials is the violation; a duty with >= t partials must recover '
                 'to a signature valid under the composite key.'),
     level_note='Trusts herumi BLS. The argument that makes the property hold (t > n/2 plus per-instance slashing protection) is not assumed by the oracle, which only counts signatures.',
-    parts=[part('TestC14', 120, 1500, qshards=2)],
+    parts=[part('TestC14', 120, 1500, qshards=4)],
     rule=('a case is one generated account plus one routed conflicting pair; non-trivial iff the account was generated and both duties were offered to at least t instances each; distinct = sha256 of the case JSON'),
     essential=['both-duties-offered-to-a-threshold-of-instances', 'one-duty-reached-threshold', 'concurrent-delivery', 'conflict-double-vote', 'conflict-a-surrounds-b',
                'conflict-b-surrounds-a', 'conflict-two-blocks', 'generation-refused', 'instance-reached-over-single-and-batch-calls', 'instance-restarted-between-deliveries'],
